@@ -44,16 +44,17 @@ structure DrvCfg where
 
 structure DrvSt where
   cur : List Node                    -- `tlist.tokens`
-  off : Nat                          -- `tidx_offset`
+  off : Int                          -- `tidx_offset` (can *decrease*: `to_idx − from_idx` is negative when a stale
+                                     --  match after a far-reaching `post` yields `nidx < pidx`)
   prev : Option (Nat × Node)         -- `(pidx, prev_)`, `none` = `(None, None)`
   reached : List Bool                -- per visited snapshot index, newest first: did it pass `tidx < 0`?
 deriving Inhabited
 
 /-- one iteration of the loop -/
 def drvStep (cfg : DrvCfg) (st : DrvSt) (idx : Nat) (token : Node) : Except PyErr DrvSt :=
-  if idx < st.off then .ok { st with reached := false :: st.reached }
+  if (idx : Int) - st.off < 0 then .ok { st with reached := false :: st.reached }
   else
-    let tidx := idx - st.off
+    let tidx := ((idx : Int) - st.off).toNat
     let st := { st with reached := true :: st.reached }
     if token.isWhitespace then .ok st
     else
@@ -70,7 +71,7 @@ def drvStep (cfg : DrvCfg) (st : DrvSt) (idx : Nat) (token : Node) : Except PyEr
               match groupTokens' cur1 cfg.cls fromIdx toIdx true cfg.extend with
               | .error e => .error e
               | .ok (cur2, grp) =>
-                .ok { st with cur := cur2, off := st.off + (toIdx - fromIdx), prev := some (fromIdx, grp) }
+                .ok { st with cur := cur2, off := st.off + ((toIdx : Int) - (fromIdx : Int)), prev := some (fromIdx, grp) }
           else .ok plain
       else .ok plain
 
